@@ -352,7 +352,30 @@ class StmtMixin:
         if isinstance(target, ast.Subscript):
             base = self.ev(target.value, st, fr)
             if isinstance(target.slice, ast.Slice):
-                raise Unsupported('slice assignment')
+                # a[lo:hi] = b on a 1-D array: element-wise copy (the new contents are a lambda over the old ones: no quantifier needed)
+                sl = target.slice
+                if not (isinstance(base, Obj) and base.kind in ('arr', 'seq') and base.ndim == 1 and base.view is None and sl.step is None
+                        and isinstance(v, Obj) and v.kind in ('arr', 'seq') and v.ndim == 1):
+                    raise Unsupported('slice assignment')
+                n = self.arr_len(st, base)
+                lo = to_int(self.ev(sl.lower, st, fr)) if sl.lower is not None else z3.IntVal(0)
+                hi = to_int(self.ev(sl.upper, st, fr)) if sl.upper is not None else n
+                what = ast.unparse(target.value)
+                # numpy semantics for 0 <= lo <= hi <= n and len(b) == hi - lo (anything else: clipping / broadcasting, not modelled)
+                self.emit(st, 'defined.slice.%s' % what, z3.And(lo >= 0, lo <= hi, hi <= n, self.arr_len(st, v) == hi - lo),
+                          'slice within the array and source of the same length')
+                fid = self.arr_fid(base)
+                f = self.field(st, fid)
+                old = z3.Select(f, base.ref)
+                src = z3.Select(self.field(st, self.arr_fid(v)), v.ref)
+                self.counter += 1
+                kk = z3.Int('k!sl%d' % self.counter)
+                srcv = z3.Select(src, kk - lo)
+                if v.elem != base.elem:
+                    srcv = coerce(srcv, base.elem)
+                new = z3.Lambda([kk], z3.If(z3.And(kk >= lo, kk < hi), srcv, z3.Select(old, kk)))
+                st.heap[fid] = z3.Store(f, base.ref, new)
+                return
             if isinstance(target.slice, ast.Tuple) and any(isinstance(e, ast.Slice) for e in target.slice.elts):
                 # a[:, k] = v on an opaque array object: handed to the declared __setitem__ external with ':' for a full slice
                 ext = isinstance(base, Obj) and self.external_spec((['%s.__setitem__' % base.cls] if base.cls else []) + ['.__setitem__'], fr)
@@ -610,6 +633,18 @@ class StmtMixin:
         for n in ast.walk(node):
             if isinstance(n, ast.Call) and isinstance(n.func, ast.Attribute) and n.func.attr == 'append' and isinstance(n.func.value, ast.Name):
                 v = st.locals.get(n.func.value.id)
+                if isinstance(v, Obj) and v.kind == 'seq':
+                    fid = self.arr_fid(v)
+                    self.counter += 1
+                    st.heap[fid] = z3.Store(self.field(st, fid), v.ref, z3.Const('hv_data!%d' % self.counter, self.field_sort(fid).range()))
+                    st.heap['$len'] = z3.Store(self.field(st, '$len'), v.ref, self.fresh('hv_len', 'int'))
+        # ... and in attributes (self._data.append(x)): the receiver expression is evaluated in the pre-loop state
+        for n in ast.walk(node):
+            if isinstance(n, ast.Call) and isinstance(n.func, ast.Attribute) and n.func.attr == 'append' and isinstance(n.func.value, ast.Attribute):
+                try:
+                    v = self.ev(n.func.value, st.copy(), fr)
+                except Unsupported:
+                    v = None
                 if isinstance(v, Obj) and v.kind == 'seq':
                     fid = self.arr_fid(v)
                     self.counter += 1
